@@ -1077,4 +1077,28 @@ PendingScripts ==
          : t \in {u \in DOMAIN tasks : tasks[u].st = "live"}}
 ScriptTasksAlive == {t \in DOMAIN tasks : tasks[t].st = "live" /\ tasks[t].script} \cup PendingScripts
 
+\* C13: the operation values that may still exist: one in every request the shell holds, one in every
+\* request or notification a command carries that a combinator holds but has not started, one in every
+\* stream a live task has made and not polled yet (the operation travels with the first poll)
+RECURSIVE OpsIn(_)
+RECURSIVE OpsInAll(_, _)
+OpsInAll(cs, i) == IF i > Len(cs) THEN 0 ELSE OpsIn(cs[i].c) + OpsInAll(cs, i + 1)
+OpsIn(c) ==
+  CASE c.k \in {"chain", "notify"} -> 1
+    [] c.k \in {"then", "and"} -> OpsIn(c.a) + OpsIn(c.b)
+    [] c.k = "all" -> OpsInAll(c.cs, 1)
+    [] c.k \in {"map_effect", "map_event"} -> OpsIn(c.c)
+    [] OTHER -> 0
+RECURSIVE SumSeq(_)
+SumSeq(q) == IF q = <<>> THEN 0 ELSE Head(q) + SumSeq(Tail(q))
+TaskOps(t) ==
+  LET T == tasks[t]
+      pending(j) == T.code[j].op = "host" /\ (j > T.pc \/ (j = T.pc /\ T.hosting = NONE))
+      unsent == Cardinality({i \in 1..NSTR : T.streams[i].rid # NONE /\ T.streams[i].rid \notin DOMAIN reqs})
+      newInner == Cardinality({i \in DOMAIN T.flat.inner : T.flat.inner[i].st = "new"}) IN
+  SumSeq([j \in DOMAIN T.code |-> IF pending(j) THEN OpsIn(T.code[j].cmd) ELSE 0]) + unsent + newInner
+OpsAlive ==
+  Cardinality({r \in DOMAIN reqs : reqs[r].held /\ ~IsChan(reqs[r])})
+  + (LET ts == SetToSortSeq({t \in DOMAIN tasks : tasks[t].st = "live"}) IN SumSeq([i \in DOMAIN ts |-> TaskOps(ts[i])]))
+
 =============================================================================
